@@ -20,7 +20,7 @@ COMPONENTS = {
 RULE = ("plans = coin class x which count or length crosses which compact-size boundary x amounts; non-trivial iff a count "
         "or length >= 0xfd is on the wire")
 FAULT_KINDS = []
-PROBES = ["wire_big_inputs", "wire_big_outputs", "wire_big_out_script", "wire_big_in_script", "wire_big_witness_item",
+PROBES = ["wire_tx_witness", "wire_tx_witness_only_empty_items", "wire_big_inputs", "wire_big_outputs", "wire_big_out_script", "wire_big_in_script", "wire_big_witness_item",
           "wire_big_witness_count", "inputs>=253", "n=0xfc", "n=0xfd", "n=0xffff", "n=0x10000"]
 
 
@@ -28,7 +28,21 @@ def gen_plan(rng, tier, index, config=None):
     r = rng.fork("ops")
     net = config or r.pick(["BTC", "BTC", "LTC", "BCH", "BTG", "XTN"])
     steps = []
-    for _ in range(r.between(1, 4)):
+    for _ in range(r.between(1, 5)):
+        # small transactions with every witness shape: absent, empty items only, mixed, on some inputs only
+        nin = r.weighted([(1, 4), (2, 3), (3, 1)])
+        ins = []
+        for _j in range(nin):
+            shape = r.weighted([("none", 4), ("empty1", 1), ("empty2", 1), ("mixed", 2), ("full", 3), ("big", 0.3)])
+            wit = {"none": [], "empty1": [""], "empty2": ["", ""], "mixed": ["", r.bytes(r.between(1, 40)).hex(), ""],
+                   "full": [r.bytes(72).hex(), r.bytes(33).hex()], "big": [r.bytes(600).hex()]}[shape]
+            ins.append({"prev": r.bytes(32).hex(), "idx": r.pick([0, 1, 0xFFFFFFFF, r.bits(32)]), "script": r.bytes(r.pick([0, 0, 23, 107])).hex(),
+                        "seq": r.pick([0xFFFFFFFF, 0, r.bits(32)]), "witness": wit})
+        outs = [{"value": r.pick([0, 1, 546, (1 << 64) - 1, r.bits(64)]), "script": r.bytes(r.pick([0, 22, 25, 34])).hex()}
+                for _k in range(r.weighted([(0, 1), (1, 4), (2, 3)]))]
+        steps.append({"op": "wire_tx", "tx": {"version": r.pick([1, 2, 0xFFFFFFFF, r.bits(32)]), "ins": ins, "outs": outs,
+                                              "locktime": r.pick([0, 499999999, 0xFFFFFFFF, r.bits(32)])}})
+    for _ in range(r.between(0, 3)):
         what = r.pick(["inputs", "outputs", "out_script", "in_script", "witness_item", "witness_count"])
         small = what in ("inputs", "outputs", "witness_count")
         n = r.weighted([(0xFC, 3), (0xFD, 3), (0xFE, 1), (300, 1), (r.between(0, 400), 2)]) if small else \
@@ -47,11 +61,13 @@ def execute(plan, ctx):
                 ctx.probe(k)
         if n is not None and n >= 0xFD:
             ctx.nontrivial = True
+        if st.get("op") == "wire_tx" and any(i["witness"] for i in st["tx"]["ins"]):
+            ctx.nontrivial = True
     cs.execute(plan, ctx)
 
 
 def normal_form(plan):
-    return jdump([plan["config"]["network"], [[s["what"], s["n"], s["value"]] for s in plan["steps"]]])
+    return jdump([plan["config"]["network"], [[s.get("what"), s.get("n"), s.get("value"), s.get("tx")] for s in plan["steps"]]])
 
 
 def fingerprint(plan, v):
